@@ -10,8 +10,9 @@ of controllers issuing `Pause` / `Resume` in any order.
 * `resumes` = `Resume` calls that are collecting acknowledgements, each with the subscribers it still
   waits for; `waiting` = `Resume` calls blocked on the serialising lock (only when the source has one).
 
-Atomicity abstraction: the flag test and the `Range` snapshot of `Resume` are one step, and
-subscribers are registered before the first pause (as the stage workers do at start-up).
+Atomicity abstraction: the flag test and the `Range` snapshot of `Resume` are one step. Subscribers may join at any time
+(`subscribe`): a stage worker subscribes from inside its own goroutine, so a pause can precede it (defect D27, repaired:
+the newcomer gets the pause signal when the pipeline is paused, and joining is serialised with `Resume`).
 -/
 namespace Zeno.Model.Pause
 open Zeno
@@ -59,6 +60,7 @@ def ackCancellable (F : Facts) : Bool :=
 
 inductive Act
   | pauseCall | resumeCall | stopCall                     -- external: controllers / shutdown
+  | subscribe                                              -- external: one more worker subscribes (a stage worker starting up)
   | pauseSend (k : Nat)                                    -- in-flight Pause k signals its next subscriber
   | resumeRecv (k i : Nat)                                 -- collecting Resume k receives from subscriber i (or sees it closed)
   | resumeFinish (k : Nat)                                 -- collecting Resume k has everything: clears the flag, returns
@@ -68,7 +70,7 @@ inductive Act
 deriving DecidableEq, Repr
 
 def Act.internal : Act → Bool
-  | .pauseCall | .resumeCall | .stopCall => false
+  | .pauseCall | .resumeCall | .stopCall | .subscribe => false
   | _ => true
 
 def dropEmpty (l : List (List Nat)) : List (List Nat) := l.filter (fun x => !x.isEmpty)
@@ -87,6 +89,14 @@ def step (F : Facts) (s : S) : Act → Option S
     if guarded F && !s.resumes.isEmpty then some { s with waiting := s.waiting + 1 }
     else some (startResume F s)
   | .stopCall => some { s with stop := true }
+  | .subscribe =>
+    -- `Subscribe()` takes the lock `Resume` holds while it collects acknowledgements (fact `subscribeSerialised`), registers the
+    -- channels, and hands the newcomer the pause signal when the pipeline is paused (fact `subscribeSignalsWhenPaused`)
+    if F.subscribeSerialised && F.subscribeSignalsWhenPaused && guarded F then
+      if s.resumes.isEmpty then
+        some { s with n := s.n + 1, subs := fun j => if j = s.n then { st := .running, token := s.paused } else s.subs j }
+      else none
+    else none
   | .pauseSend k =>
     match s.pauses[k]? with
     | some (i :: rest) =>
